@@ -111,11 +111,6 @@ def _shard(args):
           "fail": None, "excluded": {}, "error": None}
     strat = mod.strategy(tier, shard) if getattr(mod, "SHARD_AWARE", False) else mod.strategy(tier)
 
-    @hseed((seed * 1000003 + shard * 7919 + int(hashlib.sha1(mod.ID.encode()).hexdigest()[:6], 16)) & 0x7fffffff)
-    @settings(max_examples=nex, database=None, deadline=None, derandomize=False,
-              suppress_health_check=list(HealthCheck), report_multiple_bugs=False,
-              phases=[Phase.generate, Phase.shrink], print_blob=False)
-    @given(strat)
     def body(case):
         out = mod.run_case(env, case)
         failed = (not out.ok) and not (out.known and out.known in known_ids)
@@ -139,13 +134,28 @@ def _shard(args):
             st["fail"] = {"case": enc(case), "detail": out.detail}
             raise AssertionError("violation")
 
-    try:
-        body()
-    except AssertionError:
-        pass
-    except BaseException as e:      # harness error: report loudly, never as a pass
-        if st["fail"] is None:
-            st["error"] = "".join(traceback.format_exception(type(e), e, e.__traceback__))[-4000:]
+    # Hypothesis may end a run early (large examples overrun its entropy buffer and count as invalid), so the
+    # budget is spent in rounds with derived seeds until the requested number of cases has really been executed.
+    base = (seed * 1000003 + shard * 7919 + int(hashlib.sha1(mod.ID.encode()).hexdigest()[:6], 16)) & 0x7fffffff
+    rnd = 0
+    while st["evals"] < nex and rnd < 200 and st["fail"] is None and st["error"] is None:
+        before = st["evals"]
+        chunk = max(10, min(nex - st["evals"], 2500))
+        run = hseed((base + rnd * 104729) & 0x7fffffff)(
+            settings(max_examples=chunk, database=None, deadline=None, derandomize=False,
+                     suppress_health_check=list(HealthCheck), report_multiple_bugs=False,
+                     phases=[Phase.generate, Phase.shrink], print_blob=False)(given(strat)(body)))
+        try:
+            run()
+        except AssertionError:
+            pass
+        except BaseException as e:      # harness error: report loudly, never as a pass
+            if st["fail"] is None:
+                st["error"] = "".join(traceback.format_exception(type(e), e, e.__traceback__))[-4000:]
+        rnd += 1
+        if st["evals"] == before:
+            break
+    st["rounds"] = rnd
     st["nt"] = list(st["nt"])
     return st
 
